@@ -36,6 +36,7 @@ type hoDriver struct {
 	fill int // relayer transactions still waiting in the mempool from a flood (more than one block can carry)
 
 	lastBlock bool // the history's final block (determinism mode: the whole validator set may leave in it)
+	left      int  // blocks left after this one
 }
 
 func (d *hoDriver) emit(ev string, f Ev) {
@@ -119,7 +120,7 @@ func handoverHistory(w *tracew.Writer, seed int64, run, depth int, o HandoverOpt
 	}
 	d.emit("init", Ev{"C": st, "h": a.C.Height})
 	for i := 0; i < depth; i++ {
-		d.lastBlock = i == depth-1
+		d.lastBlock, d.left = i == depth-1, depth-1-i
 		if err := d.height(); err != nil {
 			return err
 		}
@@ -246,6 +247,7 @@ func (d *hoDriver) height() error {
 	rare := func(k int) bool { return r.Intn(k) == 0 }
 	h := a.C.Height + 1
 	d.lg.exodus = d.opts.Mode == "determinism" && d.lastBlock && d.run%2 == 0
+	d.lg.boost = d.opts.Mode == "determinism" && d.run%2 == 0 && d.left >= 2 && d.left <= 4 // a few blocks before: make several validators active
 	lp := d.lg.plan()
 	bp, err := d.bg.plan(d.bg.mode)
 	if err != nil {
